@@ -172,6 +172,11 @@ func (ip *Inode) Resize(atxn *alloctxn.AllocTxn, sz uint64) bool {
 		// an earlier shrink is still in progress; keep freeing from there
 		oldsz = ip.ShrinkSize
 	}
+	if mapped := ip.mappedExtent(atxn); mapped > oldsz && newSz < ip.Size {
+		// index blocks can exist beyond the size (a write or hole fill that
+		// ran out of space after allocating them); free those too
+		oldsz = mapped
+	}
 	util.DPrintf(5, "Resize %v to sz %d\n", oldsz, newSz)
 	if sz < ip.Size && sz%disk.BlockSize != 0 {
 		ip.zeroTail(atxn, sz)
@@ -195,6 +200,26 @@ func (ip *Inode) Resize(atxn *alloctxn.AllocTxn, sz uint64) bool {
 		}
 	}
 	return doshrink
+}
+
+// Returns the number of logical blocks that the inode's index blocks
+// span, i.e., one past the last block that can be mapped without
+// allocating a new index block (0 if there are no index blocks).
+func (ip *Inode) mappedExtent(atxn *alloctxn.AllocTxn) uint64 {
+	if ip.blks[DINDIRECT] != common.NULLBNUM {
+		buf := atxn.ReadBlock(ip.blks[DINDIRECT])
+		var n uint64 = 1
+		for i := uint64(0); i < NBLKBLK; i++ {
+			if buf.BnumGet(i*8) != common.NULLBNUM {
+				n = i + 1
+			}
+		}
+		return NDIRECT + NBLKBLK + n*NBLKBLK
+	}
+	if ip.blks[INDIRECT] != common.NULLBNUM {
+		return NDIRECT + NBLKBLK
+	}
+	return 0
 }
 
 // Clears the bytes beyond sz in the block that contains sz, so that
